@@ -413,54 +413,24 @@ static void audit_conf(struct conf_node_object *o)
 
 static void do_audit(const char *arg)
 {
+    /* Tripwire, not a claim about the containers: the configuration tree is walked through the public structs of
+     * src/config.h, and every client the model holds live is looked up with the modules' own public
+     * iauth_find_request().  How the request table is stored is the daemon's business (a variant keeps it in a
+     * hash table): nothing of its layout is touched here. */
     unsigned before = audit_fail;
     long nreq = -1;
     audit_conf(conf_get_root());
     if (arg && *arg && *arg != '\n') {
         struct iauth_request *(*find)(int) = dlsym(RTLD_DEFAULT, "iauth_find_request");
-        int id = atoi(arg);
-        struct iauth_request *req = find ? find(id) : NULL;
-        if (req) {
-            /* The table is file-static; its nodes are reached through the
-             * threaded list from a found request.  Nothing is assumed about
-             * where a lookup leaves the node in the tree (a set that does
-             * not splay on lookup is just as good): the root is the one node
-             * that is no node's child. */
-            struct set fake;
-            struct set_node *n = set_node(req), *f, *g, *root = NULL;
-            unsigned cnt = 0, roots = 0;
-            memset(&fake, 0, sizeof fake);
-            fake.compare = set_compare_int;
-            for (f = n; f->prev; f = f->prev) {}
-            for (g = f; g; g = g->next)
-                cnt++;
-            if (cnt <= 4096) {
-                struct set_node *h;
-                for (g = f; g; g = g->next) {
-                    int is_child = 0;
-                    for (h = f; h && !is_child; h = h->next)
-                        is_child = (h->l == g || h->r == g);
-                    if (!is_child) {
-                        roots++;
-                        root = g;
-                    }
-                }
-                if (roots != 1) {
-                    sim_note("AUDIT FAIL roots=%u requests", roots);
-                    audit_fail++;
-                }
-            } else
-                root = NULL;    /* too large for the quadratic search: list checks only */
-            fake.root = root;
-            fake.count = cnt;
-            nreq = root ? (long)audit_set(&fake, "requests") : (long)cnt;
-            for (f = n; f->prev; f = f->prev) {}
-            for (; f; f = f->next) {
-                struct iauth_request *r = set_node_data(f);
-                audit_set(&r->data, "reqdata");
-            }
-        } else
-            nreq = -2;
+        char *c = strdup(arg), *sv, *t;
+        nreq = 0;
+        for (t = strtok_r(c, ",\n", &sv); t; t = strtok_r(NULL, ",\n", &sv)) {
+            if (find && find(atoi(t)))
+                nreq++;
+            else
+                sim_note("AUDIT MISSING %d", atoi(t));
+        }
+        free(c);
     }
     sim_note("AUDIT %s nreq=%ld", audit_fail == before ? "ok" : "FAIL", nreq);
 }
